@@ -1,11 +1,151 @@
-// Package c07: correspondence ops for C07 (stub, not yet built).
 package c07
 
 import (
+	"encoding/json"
+	"fmt"
+	"math/rand/v2"
+	"sort"
+	"strings"
+
+	"github.com/go-logr/logr"
+	ctrllog "sigs.k8s.io/controller-runtime/pkg/log"
+
 	"verifharness/internal/core"
 	"verifharness/internal/registry"
 )
 
-func init() { registry.Register("C07", Ops) }
+func init() {
+	registry.Register("C07", Ops)
+	// the real controllers log through controller-runtime; without a logger it prints a stack trace once
+	ctrllog.SetLogger(logr.Discard())
+}
 
-func Ops() []*core.Op { return nil }
+func anySel(out any) (sel []string) {
+	m, _ := out.(map[string]any)
+	s, _ := m["get"].(map[string]any)
+	for k, v := range s {
+		if b, _ := v.(bool); b {
+			sel = append(sel, k)
+		}
+	}
+	sort.Strings(sel)
+	return sel
+}
+
+func candidateLabels(raw json.RawMessage, out any) []string {
+	var in CaseIn
+	_ = json.Unmarshal(raw, &in)
+	l := []string{"base:" + in.Base, fmt.Sprintf("mods=%d", len(in.Mods))}
+	for _, m := range in.Mods {
+		l = append(l, "mod:"+m)
+	}
+	for _, s := range anySel(out) {
+		l = append(l, "selected:"+s)
+	}
+	if len(anySel(out)) == 0 {
+		l = append(l, "selected:none")
+	}
+	if m, ok := out.(map[string]any); ok {
+		if c, ok := m["cand"].(map[string]any); ok {
+			l = append(l, fmt.Sprintf("cand:graceful=%v", c["graceful"]), fmt.Sprintf("cand:eventual=%v", c["eventual"]))
+		}
+		l = append(l, fmt.Sprintf("node:%v", m["node"]), fmt.Sprintf("pods:%v", m["pods"]))
+	}
+	if in.Reconcile {
+		l = append(l, "reconcile")
+	}
+	return l
+}
+
+// candidateSignature classifies a failing world by what the implementation wrongly selected/accepted: the
+// methods selected and the leaf verdicts.  (No known finding uses it; kept precise so that one can.)
+func candidateSignature(raw json.RawMessage, out any) string {
+	m, _ := out.(map[string]any)
+	return fmt.Sprintf("selected=%s node=%v pods=%v", strings.Join(anySel(out), "+"), m["node"], m["pods"])
+}
+
+func shrinkWorld(raw json.RawMessage) []any {
+	var in CaseIn
+	if err := json.Unmarshal(raw, &in); err != nil {
+		return nil
+	}
+	var out []any
+	for _, ps := range core.ShrinkList(in.Pods) {
+		c := in
+		c.Pods = ps
+		out = append(out, c)
+	}
+	for _, bs := range core.ShrinkList(in.Pdbs) {
+		c := in
+		c.Pdbs = bs
+		out = append(out, c)
+	}
+	if in.NominatedAt != nil {
+		c := in
+		c.NominatedAt = nil
+		out = append(out, c)
+	}
+	for _, f := range []func(c *CaseIn) bool{
+		func(c *CaseIn) bool { r := c.Reupdate; c.Reupdate = false; return r },
+		func(c *CaseIn) bool { r := c.Reconcile; c.Reconcile = false; return r },
+		func(c *CaseIn) bool { r := c.Marked; c.Marked = false; return r },
+		func(c *CaseIn) bool { r := c.InQueue; c.InQueue = false; return r },
+		func(c *CaseIn) bool { r := c.Buffer > 0; c.Buffer = 0; return r },
+		func(c *CaseIn) bool { r := len(c.Mods) > 0; c.Mods = nil; return r },
+	} {
+		c := in
+		if f(&c) {
+			out = append(out, c)
+		}
+	}
+	return out
+}
+
+func Ops() []*core.Op {
+	return append([]*core.Op{
+		{
+			Name: "c07.candidate",
+			Doc: "one node (+NodeClaim, NodePool, pods, PDBs) on the fake client, real state.Cluster fed by UpdateNodeClaim/UpdateNode/UpdatePod (+MarkForDeletion, NominateNodeForPod, buffer counts, queue entry, optional real nodeclaim.disruption reconcile): " +
+				"StateNode.ValidateNodeDisruptable, ValidatePodsDisruptable (real pdb.NewLimits), disruption.NewCandidate per class, every method of disruption.NewMethods: Class(), ShouldDisrupt, and disruption.GetCandidates",
+			N: func(t core.Tier) int {
+				if t == core.Thorough {
+					return 25000
+				}
+				return 2500
+			},
+			Gen:  func(r *rand.Rand, t core.Tier) any { return genWorld(r, t == core.Thorough) },
+			Enum: func(t core.Tier) []any { return enumMatrix(t == core.Thorough) },
+			Impl: implCandidate,
+			Rule: "exhaustive: 3 base worlds (busy/empty/static) x TGP x {no modifier, every single modifier} and every pair of modifiers (quick: each pair in one of the six base worlds, rotating; thorough: in all six) over the blocker/decoy/eligibility modifier list; plus random worlds (0-4 modifiers, random pods/PDBs, clock at the nomination / do-not-disrupt / consolidateAfter edges). non-trivial = the state node is tracked and at least one blocker, decoy or eligibility modifier is present",
+			Nontrivial: func(raw json.RawMessage, out any) bool {
+				var in CaseIn
+				_ = json.Unmarshal(raw, &in)
+				m, _ := out.(map[string]any)
+				tr, _ := m["tracked"].(bool)
+				return tr && (len(in.Mods) > 0 || len(in.Pods) > 1 || len(in.Pdbs) > 0)
+			},
+			Labels:         candidateLabels,
+			Signature:      candidateSignature,
+			Shrink:         shrinkWorld,
+			ExhaustiveNote: fmt.Sprintf("method x blocker matrix: 3 bases x 2 (TGP) x (1 + %d singles) worlds x 5 methods, complete in both tiers; %d modifier pairs (quick: one base world each, thorough: all six)", len(modifiers), len(modifiers)*(len(modifiers)-1)/2),
+		},
+		{
+			Name: "c07.history",
+			Doc: "event histories against ONE real state.Cluster (UpdateNodeClaim/DeleteNodeClaim, UpdateNode/DeleteNode, MarkForDeletion/UnmarkForDeletion, NominateNodeForPod, pod events, the real nodeclaim.disruption controller, clock ticks): " +
+				"after every event disruption.GetCandidates for each method of NewMethods",
+			N: func(t core.Tier) int {
+				if t == core.Thorough {
+					return 2500
+				}
+				return 400
+			},
+			Gen:        genHistory,
+			Impl:       implHistory,
+			Rule:       "random histories of 4-28 events (4-84 thorough) with ticks aimed at the end of the nomination window and of consolidateAfter; non-trivial = the set of selecting methods changes at least twice along the history",
+			Nontrivial: historyNontrivial,
+			Labels:     historyLabels,
+			Signature:  func(raw json.RawMessage, _ any) string { return "history" },
+			Shrink:     shrinkHistory,
+		},
+	}, append(leafOps(), controllerOp())...)
+}
